@@ -28,11 +28,12 @@ demo = next(wt.glob("demo_*.py"))
 patch = wt / "patch.diff"
 
 
-def run(cmd, cwd, env=None, timeout=3000):
+def run(cmd, cwd, env=None, timeout=3000, keep=1500):
     e = dict(os.environ)
     e.update(env or {})
     p = subprocess.run(cmd, cwd=cwd, env=e, capture_output=True, text=True, timeout=timeout)
-    return p.returncode, (p.stdout + p.stderr)[-1500:]
+    out = p.stdout + p.stderr
+    return p.returncode, (out[-keep:] if keep else out)
 
 
 env = {"PYTHONPATH": str(wt / "src")}
@@ -54,7 +55,7 @@ try:
         print("patch does not apply to /repo copy:", a.stderr[:500])
         sys.exit(2)
     for prop in props:
-        rc, out = run([str(V / "check"), prop, "--tier", tier], V, {"VERIF_REPO": str(scratch)}, timeout=6000)
+        rc, out = run([str(V / "check"), prop, "--tier", tier], V, {"VERIF_REPO": str(scratch)}, timeout=6000, keep=0)
         lines = [l for l in out.splitlines() if l.startswith("VIOLATION") or "done rc" in l]
         keys = []
         for l in lines:
